@@ -4,8 +4,8 @@ mutations + flags) refines the region-wise edit `Spec.Edit.ElemEdit`.
 -/
 import LolHtml.Lemmas.Edit
 
-namespace LolHtml.Lemmas.ElementOps
-open LolHtml LolHtml.Model LolHtml.Spec.Edit LolHtml.Lemmas.Edit
+namespace LolHtml.Lemmas.EditElementOps
+open LolHtml LolHtml.EditModel LolHtml.Spec.Edit LolHtml.Lemmas.Edit
 
 /-- Abstraction: which region each piece of the `Element` state stands for. -/
 def absEl (e : Element) : ElemEdit :=
@@ -486,4 +486,4 @@ theorem serializeSelf_of_ownPart (a b : StartTag) (h : ownPart a = ownPart b)
   subst hs
   rfl
 
-end LolHtml.Lemmas.ElementOps
+end LolHtml.Lemmas.EditElementOps
